@@ -204,10 +204,11 @@ pub fn answer(w: &mut World, uri: &str, body: &[u8], json: &Value, kind: ReqKind
             };
             let k = w.uc_attempts[ci];
             w.uc_attempts[ci] += 1;
+            let repeat = w.script.repeat_last_attempt;
             w.script
                 .checks
                 .get(ci)
-                .and_then(|c| c.attempts.get(k).cloned())
+                .and_then(|c| c.attempts.get(k).cloned().or_else(|| if repeat { c.attempts.last().cloned() } else { None }))
                 .unwrap_or_else(RespSpec::noupdate)
         }
         ReqKind::Event => {
